@@ -1,0 +1,17 @@
+//! Verification hooks, only compiled with the `verif-hooks` feature (off by default).
+
+/// The base URL of the Mojang session server.
+const SESSION_SERVER: &str = "https://sessionserver.mojang.com";
+
+/// Redirects a session server request to the base URL given by the `PASSAGE_VERIF_SESSION_URL`
+/// environment variable (if set), such that the real request can be observed by a local mock. The
+/// path, query and fragment of the request are left untouched.
+pub(crate) fn redirect_session_url(url: &str) -> String {
+    match (
+        std::env::var("PASSAGE_VERIF_SESSION_URL"),
+        url.strip_prefix(SESSION_SERVER),
+    ) {
+        (Ok(base), Some(rest)) => format!("{base}{rest}"),
+        _ => url.to_string(),
+    }
+}
